@@ -7,6 +7,7 @@ Rust anchors (working tree of /repo):
 * `scylla/src/policies/speculative_execution.rs:165-218`  `execute` (the `select!` loop)
 * `scylla/src/client/execution.rs:71-86`                  `SharedPlan` (one mutex-guarded iterator)
 * `scylla/src/client/execution.rs:417-484`                the idempotence gate
+* `scylla/src/client/execution.rs:486-501`                the client-side request timeout around the whole runner
 * `scylla/src/client/execution.rs:519-644`                a fiber, seen from outside: it pops targets from
   the (shared) plan, has at most one attempt outstanding at a time, and completes with
   `Option<Result<_, RequestError>>` (`None` = it never got a target).
@@ -96,7 +97,9 @@ structure St (α τ : Type) where
   handed : List (Nat × τ)
   /-- attempts currently on the wire: `(fiber, target)`. -/
   attempts : List (Nat × τ)
-  /-- `execute` (or the single sequential fiber) returned this. -/
+  /-- `self.request_timeout.is_some()` (`execution.rs:486-487`): the runner is wrapped in `tokio::time::timeout`. -/
+  hasDeadline : Bool
+  /-- what the call (`runner` under the optional timeout) returned. -/
   returned : Option (Res α)
   deriving Repr
 
@@ -115,26 +118,29 @@ inductive Event (α : Type)
   | attemptDone (i : Nat)
   /-- the `res = async_tasks.select_next_some()` branch is taken with fiber `i`'s output (`:197-215`). -/
   | complete (i : Nat) (o : Outcome α)
+  /-- the client-side timeout elapses: `tokio::time::timeout(timeout, runner)` yields `Elapsed`, the runner (with
+  every fiber) is dropped and the call returns `RequestError::RequestTimeout` (`execution.rs:487-499`). -/
+  | deadline
   deriving Repr
 
 /-- `execute` was entered for an idempotent request with a policy: `retries_remaining = max_retry_count`,
 one fiber pushed, timer armed (`:173-185`). -/
-def initSpec {α τ : Type} (maxRetry : Nat) (plan : List τ) : St α τ :=
+def initSpec {α τ : Type} (maxRetry : Nat) (dl : Bool) (plan : List τ) : St α τ :=
   { retriesRemaining := maxRetry, running := [0], sleepArmed := true, lastError := none, started := 1,
-    plan := plan, handed := [], attempts := [], returned := none }
+    plan := plan, handed := [], attempts := [], hasDeadline := dl, returned := none }
 
 /-- The `_ =>` arm of the gate (`execution.rs:462-482`): exactly one fiber, no timer;
 `.await.unwrap_or(Err(EmptyPlan))` is what `complete` does with `retriesRemaining = 0`. -/
-def initSingle {α τ : Type} (plan : List τ) : St α τ :=
+def initSingle {α τ : Type} (dl : Bool) (plan : List τ) : St α τ :=
   { retriesRemaining := 0, running := [0], sleepArmed := false, lastError := none, started := 1,
-    plan := plan, handed := [], attempts := [], returned := none }
+    plan := plan, handed := [], attempts := [], hasDeadline := dl, returned := none }
 
 /-- The idempotence gate (`execution.rs:418-420`):
 `Some((metrics, Some(speculative))) if self.is_idempotent` ⇒ the speculative machine, else one fiber. -/
-def init {α τ : Type} (idempotent : Bool) (policyMaxRetry : Option Nat) (plan : List τ) : St α τ :=
+def init {α τ : Type} (idempotent : Bool) (policyMaxRetry : Option Nat) (dl : Bool) (plan : List τ) : St α τ :=
   match policyMaxRetry with
-  | some m => if idempotent then initSpec m plan else initSingle plan
-  | none => initSingle plan
+  | some m => if idempotent then initSpec m dl plan else initSingle dl plan
+  | none => initSingle dl plan
 
 /-- The target fiber `i` currently holds = the last one `SharedPlan::next` gave it. -/
 def currentTarget {τ : Type} (handed : List (Nat × τ)) (i : Nat) : Option τ :=
@@ -167,12 +173,14 @@ def step {α τ : Type} (s : St α τ) (e : Event α) : St α τ :=
         -- the sleep completed and is not re-set: `Fuse` reports terminated, `select!` skips it from now on
         { s with sleepArmed := false }
     | .pop i =>
-      if !s.running.contains i || hasAttempt s.attempts i then s
+      if !s.running.contains i then s
       else match s.plan with
         | [] => s
         | t :: rest => { s with plan := rest, handed := (i, t) :: s.handed }
     | .send i =>
-      if !s.running.contains i || hasAttempt s.attempts i then s
+      -- NOT guarded by "fiber `i` has no attempt outstanding": that a fiber is sequential is a property of the
+      -- schedule (`Props.C13.Sequential`), discharged for the retry loop of C06, not built into the machine
+      if !s.running.contains i then s
       else match currentTarget s.handed i with
         | none => s
         | some t => { s with attempts := (i, t) :: s.attempts }
@@ -190,6 +198,9 @@ def step {α τ : Type} (s : St α τ) (e : Event α) : St α τ :=
             { s with returned := some r, running := [], attempts := [] }
           else checkDone { s with lastError := some r }
         | none => checkDone { s with retriesRemaining := 0 }
+    | .deadline =>
+      if !s.hasDeadline then s
+      else { s with returned := some (.err .requestTimeout), running := [], attempts := [] }
 
 def run {α τ : Type} (s : St α τ) (evs : List (Event α)) : St α τ := evs.foldl step s
 
@@ -214,5 +225,29 @@ def consumedBy {α τ : Type} (s : St α τ) : Event α → Option (Res α)
 def consumed {α τ : Type} (s : St α τ) : List (Event α) → List (Res α)
   | [] => []
   | e :: es => (consumedBy s e).toList ++ consumed (step s e) es
+
+/-- `e` is the client-side timeout taking effect in `s`. -/
+def deadlineBy {α τ : Type} (s : St α τ) : Event α → Bool
+  | .deadline => s.returned.isNone && s.hasDeadline
+  | _ => false
+
+/-- The client-side timeout took effect somewhere in the schedule. -/
+def deadlineHit {α τ : Type} (s : St α τ) : List (Event α) → Bool
+  | [] => false
+  | e :: es => deadlineBy s e || deadlineHit (step s e) es
+
+/-! ### per-fiber sequentiality as a property of the schedule -/
+
+/-- Phase of every fiber (`true` = an attempt is outstanding) after one more event. -/
+def phaseStep {α : Type} (ph : Nat → Bool) : Event α → Nat → Bool
+  | .send i => fun j => if j = i then true else ph j
+  | .attemptDone i => fun j => if j = i then false else ph j
+  | .complete i _ => fun j => if j = i then false else ph j
+  | _ => ph
+
+/-- No fiber sends an attempt while its previous attempt is still outstanding. -/
+def sequential {α : Type} (ph : Nat → Bool) : List (Event α) → Bool
+  | [] => true
+  | e :: es => (match e with | .send i => !ph i | _ => true) && sequential (phaseStep ph e) es
 
 end ScyllaVerif.Speculative
